@@ -12,7 +12,7 @@ def classify(case_line):
 CFG = dict(
     imports=["From Verif.C18 Require Import Model Spec.", "Open Scope N_scope."],
     checker="check_case",
-    n=dict(quick=250, thorough=12000),
+    n=dict(quick=200, thorough=12000),
     shard=15,
     classify=classify,
     rule="op sequences (6-40 ops) over 2-6 keys x 1-4 values on the real DeltaTracker[int,int] with valuesEqual = (==) "
@@ -26,7 +26,8 @@ CFG = dict(
          "keys so that IterBatched's first loop fills batches of 128 mid-range; 1/5 of the cases (KCache) drive the real "
          "CachingMap[int,int] over a fake DataplaneMap (half of them also a DataplaneBatchedMap: BatchUpdate/BatchDelete with "
          "failing items, ErrNotExists, short writes) with injected Load/Update/Delete failures, out-of-band writes, "
-         "LoadCacheFromDataplane, ApplyUpdatesOnly/ApplyDeletionsOnly/ApplyAllChanges (real map and error count dumped "
+         "Dataplane() pass-through Set/Delete/DeleteAll, LoadCacheFromDataplane, ApplyUpdatesOnly/ApplyDeletionsOnly/"
+         "ApplyAllChanges (real map and error count dumped; InSync() cross-checked against the pending views in every dump "
          "too).  non-trivial = tracker: some iteration applied an update/deletion, some replacement happened and at some "
          "point updates and deletions were pending together; cache: a successful and a failed ApplyAllChanges and an "
          "out-of-band write; big: always; distinct by (kind, ops)",
